@@ -15,11 +15,19 @@ pub fn unix_time_unit_offset() -> u64 {
 
 #[inline]
 pub fn sleep_for_ms(ms: u64) {
+    #[cfg(flea1lt_sentinel_rust_verif)]
+    if verif_clock::virtual_sleep_ns((ms as i128) * 1_000_000) {
+        return;
+    }
     std::thread::sleep(std::time::Duration::from_millis(ms));
 }
 
 #[inline]
 pub fn sleep_for_ns(ns: u64) {
+    #[cfg(flea1lt_sentinel_rust_verif)]
+    if verif_clock::virtual_sleep_ns(ns as i128) {
+        return;
+    }
     std::thread::sleep(std::time::Duration::from_nanos(ns));
 }
 
@@ -54,6 +62,10 @@ pub fn format_time_nanos_curr() -> String {
 }
 
 pub fn curr_time_millis() -> u64 {
+    #[cfg(flea1lt_sentinel_rust_verif)]
+    if let Some(ns) = verif_clock::virtual_now_ns() {
+        return (ns / 1_000_000) as u64;
+    }
     // todo: conditional compilation, `config::use_cache_time()`
     let ticker_time = curr_time_millis_with_ticker();
     if ticker_time > 0 {
@@ -65,6 +77,10 @@ pub fn curr_time_millis() -> u64 {
 
 #[inline]
 pub fn curr_time_nanos() -> i128 {
+    #[cfg(flea1lt_sentinel_rust_verif)]
+    if let Some(ns) = verif_clock::virtual_now_ns() {
+        return ns;
+    }
     OffsetDateTime::now_utc().unix_timestamp_nanos()
 }
 
@@ -103,5 +119,75 @@ pub mod ticker {
     #[inline]
     pub(super) fn curr_time_millis_with_ticker() -> u64 {
         NOW_IN_MS.load(Ordering::SeqCst)
+    }
+}
+
+/// Verification hook (compiled only with `--cfg flea1lt_sentinel_rust_verif`):
+/// a process-wide virtual clock. While it is switched off every function above
+/// behaves exactly as without the hook.
+#[cfg(flea1lt_sentinel_rust_verif)]
+pub mod verif_clock {
+    use std::sync::Mutex;
+
+    struct State {
+        on: bool,
+        now_ns: i128,
+        slept: Vec<i128>,
+    }
+
+    static STATE: Mutex<State> = Mutex::new(State {
+        on: false,
+        now_ns: 0,
+        slept: Vec::new(),
+    });
+
+    fn lock() -> std::sync::MutexGuard<'static, State> {
+        STATE.lock().unwrap_or_else(|e| e.into_inner())
+    }
+
+    /// Switch the virtual clock on and set it.
+    pub fn set_ns(ns: i128) {
+        let mut s = lock();
+        s.on = true;
+        s.now_ns = ns;
+    }
+
+    pub fn set_ms(ms: u64) {
+        set_ns(ms as i128 * 1_000_000);
+    }
+
+    pub fn advance_ns(ns: i128) {
+        let mut s = lock();
+        s.now_ns += ns;
+    }
+
+    pub fn disable() {
+        lock().on = false;
+    }
+
+    pub fn virtual_now_ns() -> Option<i128> {
+        let s = lock();
+        if s.on {
+            Some(s.now_ns)
+        } else {
+            None
+        }
+    }
+
+    /// A sleep on the virtual clock advances it and is logged.
+    pub fn virtual_sleep_ns(ns: i128) -> bool {
+        let mut s = lock();
+        if s.on {
+            s.now_ns += ns;
+            s.slept.push(ns);
+            true
+        } else {
+            false
+        }
+    }
+
+    /// Take (and clear) the log of requested sleeps, in ns.
+    pub fn take_sleeps() -> Vec<i128> {
+        std::mem::take(&mut lock().slept)
     }
 }
